@@ -3,6 +3,7 @@ from __future__ import annotations
 
 import os
 import subprocess
+import zlib
 import tempfile
 import time
 from fractions import Fraction as Fr
@@ -13,6 +14,13 @@ from .symreal import f_vars, f_to_z3, f_not, f_and, TRUE, FALSE
 Z3_TIMEOUT_MS = int(os.environ.get("VERIF_Z3_TIMEOUT_MS", "20000"))
 CVC5_TIMEOUT_MS = int(os.environ.get("VERIF_CVC5_TIMEOUT_MS", "20000"))
 STATS = dict(z3_calls=0, z3_time=0.0, cvc5_calls=0, cvc5_time=0.0, syntactic=0)
+
+
+def CROSSCHECK_EVERY():
+    v = os.environ.get("VERIF_CROSSCHECK_EVERY")
+    if v is not None:
+        return int(v)
+    return 5 if os.environ.get("VERIF_TIER", "quick") == "thorough" else 0
 
 
 def _zvars(ctx):
@@ -128,6 +136,16 @@ def prove(ctx, goal, extra=(), timeout_ms=None, use_cvc5=True, want_model=True, 
         return dict(status="refuted" if st == "sat" else "unknown", by="z3", model=model, t=dt)
     st, model, dt, solver = check_sat(ctx, hyps + [f_not(goal)], timeout_ms, want_model)
     if st == "unsat":
+        every = CROSSCHECK_EVERY()
+        if every:
+            # independent confirmation of a sample of z3's `unsat` answers by cvc5 (thorough tier): a `sat` from cvc5 withdraws the proof
+            text = "(set-logic QF_NRA)\n" + solver.to_smt2().replace("(set-info :status unknown)", "")
+            if zlib.crc32(text.encode()) % every == 0:
+                r = cvc5_check(text, 5000)
+                if r == "sat":
+                    STATS["cross_disagree"] = STATS.get("cross_disagree", 0) + 1
+                    return dict(status="unknown", by="z3 says unsat, cvc5 says sat (DISAGREEMENT)", t=dt)
+                return dict(status="proved", by="z3+cvc5" if r == "unsat" else "z3 (cvc5: no answer in 5 s)", t=dt)
         return dict(status="proved", by="z3", t=dt)
     if st == "sat":
         return dict(status="refuted", by="z3", model=model, t=dt)
